@@ -348,6 +348,10 @@ def check_bbox(case, domain, P, out, stats):
     if P is None or not P:
         return
     dom = case["dom"]
+    if _has_dependent_product(dom):
+        # documented 10-point estimate (the library warns and asks for set_bounding_box)
+        stats["bbox_skipped_estimate"] = stats.get("bbox_skipped_estimate", 0) + 1
+        return
     params = B.params_points(case.get("pspace"), case.get("prows"))
     try:
         bb = domain.bounding_box(params)
@@ -372,7 +376,212 @@ def check_bbox(case, domain, P, out, stats):
     stats["bbox_checked"] = stats.get("bbox_checked", 0) + 1
 
 
-def run_case(case, props=("C01", "C02", "C05", "C10", "C18"), monitors=True):
+def _points_of(dom, P, rows=None):
+    """Points object in the domain's space (+ parameter columns) from a row table."""
+    sp = G.space(dom)
+    cols, space = [], None
+    names = [v for v, _ in sp] + [v for v in P if v not in [x for x, _ in sp]]
+    for v in names:
+        a = P[v]
+        cols.append(torch.tensor(a, dtype=torch.float32))
+        s_ = B.mkspace(v, a.shape[1])
+        space = s_ if space is None else space * s_
+    return B.Points(torch.cat(cols, dim=1), space)
+
+
+def check_own_membership(case, domain, pts, P, out, stats):
+    """C05 (ii): the library's membership test accepts its own samples: boundary
+    samples on the boundary predicate, interior samples farther than tol inside."""
+    dom = case["dom"]
+    if P is None or len(pts.as_tensor) == 0:
+        return
+    rows = len(pts.as_tensor)
+    sp_names = [v for v, _ in G.space(dom)]
+    point_part = pts[:, sp_names] if list(pts.space.keys()) != sp_names else pts
+    par_tab = {v: a for v, a in P.items() if v not in sp_names}
+    params = _points_of({"k": "pt", "var": "_", "dim": 0, "p": []}, par_tab) if False else None
+    if par_tab:
+        cols, space = [], None
+        for v, a in par_tab.items():
+            cols.append(torch.tensor(a, dtype=torch.float32))
+            s_ = B.mkspace(v, a.shape[1])
+            space = s_ if space is None else space * s_
+        params = B.Points(torch.cat(cols, dim=1), space)
+    else:
+        params = B.Points.empty()
+    try:
+        ans = domain._contains(B.Points(point_part.as_tensor.clone(), point_part.space), params)
+    except Exception as ex:
+        out.append(viol("C05", "own-samples", "raises:" + type(ex).__name__, innermost_site(ex.__traceback__),
+                        msg=str(ex)[:160]))
+        return
+    ans = torch.as_tensor(ans)
+    if ans.numel() != rows:
+        out.append(viol("C05", "answer-shape", "one-truth-value-per-row", "", shape=list(ans.shape), rows=rows))
+        return
+    a = ans.reshape(-1).double().numpy() > 0.5
+    if G.is_boundary(dom) or "pt" in G.kinds(dom):
+        judge = G.dev(dom, P) <= G.TOL_ON
+    else:
+        judge = G.margin(dom, P) > G.TOL_FAR
+    stats["own_judged"] = stats.get("own_judged", 0) + int(judge.sum())
+    bad = judge & ~a
+    if bad.any():
+        out.append(viol("C05", "own-samples", "own-sample-rejected", "",
+                        rows_bad=int(bad.sum()), rows=rows, boundary=G.is_boundary(dom)))
+
+
+def check_probe_membership(case, domain, out, stats, n=400):
+    """C05 (iii): query points from the reference sampler in the enlarged box,
+    each row with its own parameter row."""
+    dom = case["dom"]
+    pspace = [tuple(x) for x in (case.get("pspace") or [])]
+    prows = case.get("prows") or []
+    fv = G.free_vars(dom)
+    rng = np.random.default_rng(H(case["rng"], "probe") % (2 ** 32))
+    par_rows = prows if prows else [[]]
+    if fv - {v for v, _ in pspace}:
+        return
+    tabs = []
+    per = max(8, n // len(par_rows))
+    for row in par_rows:
+        prow = {v: [row[i]] for i, (v, _) in enumerate(pspace)}
+        try:
+            q = G.probe_points(dom, prow, per, rng)
+        except Exception:
+            return
+        for i, (v, d) in enumerate(pspace):
+            if v not in q:
+                q[v] = np.full((per, d), float(row[i]))
+        tabs.append(q)
+    P = {v: np.concatenate([t[v] for t in tabs], axis=0) for v in tabs[0]}
+    sp_names = [v for v, _ in G.space(dom)]
+    # round the probes to float32 so both sides see the same coordinates
+    P = {v: a.astype(np.float32).astype(np.float64) for v, a in P.items()}
+    pts = _points_of(dom, {v: P[v] for v in sp_names})
+    par_tab = {v: a for v, a in P.items() if v not in sp_names}
+    params = B.Points.empty()
+    if par_tab:
+        cols, space = [], None
+        for v, a in par_tab.items():
+            cols.append(torch.tensor(a, dtype=torch.float32))
+            s_ = B.mkspace(v, a.shape[1])
+            space = s_ if space is None else space * s_
+        params = B.Points(torch.cat(cols, dim=1), space)
+    try:
+        ans = domain._contains(pts, params)
+    except Exception as ex:
+        out.append(viol("C05", "probe", "raises:" + type(ex).__name__, innermost_site(ex.__traceback__),
+                        msg=str(ex)[:160]))
+        return
+    rows = len(pts.as_tensor)
+    ans = torch.as_tensor(ans)
+    if ans.numel() != rows:
+        out.append(viol("C05", "answer-shape", "one-truth-value-per-row", "", shape=list(ans.shape), rows=rows))
+        return
+    a = ans.reshape(-1).double().numpy() > 0.5
+    if G.is_boundary(dom) or "pt" in G.kinds(dom):
+        d = G.dev(dom, P)
+        far = d > G.TOL_FAR
+        bad = far & a
+        kind = "boundary-accepts-far-point"
+    else:
+        m = G.margin(dom, P)
+        far = np.abs(m) > G.TOL_FAR
+        bad = far & ((m > 0) != a)
+        kind = "wrong-answer"
+    stats["probe_judged"] = stats.get("probe_judged", 0) + int(far.sum())
+    stats["probe_inside"] = stats.get("probe_inside", 0) + int((a & far).sum())
+    if bad.any():
+        i = int(np.argmax(bad))
+        out.append(viol("C05", "probe", kind, "", rows_bad=int(bad.sum()), rows=rows, row=i))
+
+
+def solid_of(node):
+    """The solid whose boundary a boundary expression is (None if not of that form)."""
+    if node["k"] == "bnd":
+        return node["d"]
+    return None
+
+
+def check_normals(case, domain, pts, P, out, stats, h=2e-3):
+    """C06: normals at the library's own boundary samples are finite unit outward vectors."""
+    dom = case["dom"]
+    solid = solid_of(dom)
+    if solid is None or P is None or not hasattr(domain, "normal") or len(pts.as_tensor) == 0:
+        return
+    if any(k_ in ("transl", "rot", "prod", "poly", "pt") for k_ in G.kinds(solid)):
+        return  # C06 speaks of primitives and Boolean combinations of primitives
+    sp_names = [v for v, _ in G.space(dom)]
+    rows = len(pts.as_tensor)
+    par_tab = {v: a for v, a in P.items() if v not in sp_names}
+    params = B.Points.empty()
+    if par_tab:
+        cols, space = [], None
+        for v, a in par_tab.items():
+            cols.append(torch.tensor(a, dtype=torch.float32))
+            s_ = B.mkspace(v, a.shape[1])
+            space = s_ if space is None else space * s_
+        params = B.Points(torch.cat(cols, dim=1), space)
+    point_part = pts[:, sp_names] if list(pts.space.keys()) != sp_names else pts
+    try:
+        nrm = domain.normal(B.Points(point_part.as_tensor.clone(), point_part.space), params)
+    except Exception as ex:
+        out.append(viol("C06", "normal-call", "raises:" + type(ex).__name__, innermost_site(ex.__traceback__),
+                        msg=str(ex)[:160]))
+        return
+    nrm = torch.as_tensor(nrm)
+    d = sum(dd for _, dd in G.space(dom))
+    if list(nrm.shape) != [rows, d]:
+        out.append(viol("C06", "normal-shape", "shape", "", got=list(nrm.shape), want=[rows, d]))
+        return
+    nv = nrm.double().numpy()
+    finite = np.isfinite(nv).all(axis=1)
+    if not finite.all():
+        out.append(viol("C06", "finite", "non-finite-normal", "", rows_bad=int((~finite).sum()), rows=rows))
+    ln = np.linalg.norm(np.where(np.isfinite(nv), nv, 0.0), axis=1)
+    bad_len = finite & (np.abs(ln - 1) > 1e-4)
+    if bad_len.any():
+        out.append(viol("C06", "unit", "not-unit-length", "", rows_bad=int(bad_len.sum()),
+                        worst=float(np.abs(ln - 1)[bad_len].max())))
+    ok = finite & ~bad_len
+    v = sp_names[0]
+    Pp = dict(P)
+    Pm = dict(P)
+    Pp[v] = P[v] + h * np.where(ok[:, None], nv, 0.0)
+    Pm[v] = P[v] - h * np.where(ok[:, None], nv, 0.0)
+    mp, mm = G.margin(solid, Pp), G.margin(solid, Pm)
+    near = G.n_features_near(solid, P, 5 * h)
+    regular = ok & (near <= 1)
+    corner = ok & (near >= 2)
+    bad = regular & ~((mp < 0) & (mm > 0))
+    # near corners/junctions the step test is only meaningful in its weak form:
+    # along the normal must not be *more* inside than against it
+    is_prim = solid["k"] in ("par", "tri", "iv", "circ", "sph")
+    badc = corner & is_prim & ~((mp < 0) & (mm > mp))
+    stats["normals_judged"] = stats.get("normals_judged", 0) + int(regular.sum())
+    stats["normals_corner_judged"] = stats.get("normals_corner_judged", 0) + int((corner & is_prim).sum())
+    if bad.any():
+        i = int(np.argmax(bad))
+        out.append(viol("C06", "outward", "not-outward", "", rows_bad=int(bad.sum()), rows=rows,
+                        along=float(mp[i]), against=float(mm[i])))
+    if badc.any():
+        i = int(np.argmax(badc))
+        out.append(viol("C06", "outward-corner", "not-outward", "", rows_bad=int(badc.sum()), rows=rows,
+                        along=float(mp[i]), against=float(mm[i])))
+
+
+def _has_dependent_product(node):
+    if node["k"] == "prod" and (G.free_vars(node["a"]) & {v for v, _ in G.space(node["b"])}):
+        return True
+    return any(_has_dependent_product(c) for c in G.children(node))
+
+
+def dom_probe_ok(dom):
+    return True
+
+
+def run_case(case, props=("C01", "C02", "C05", "C06", "C10", "C18"), monitors=True):
     """Execute one case; returns a JSON-able record."""
     out, stats = [], {}
     sim = SimRNG(case["rng"], fault=case.get("fault"))
@@ -400,12 +609,18 @@ def run_case(case, props=("C01", "C02", "C05", "C10", "C18"), monitors=True):
             try:
                 P = check_membership(case, pts, out, stats)
                 check_counts(case, pts, sampler, out, stats)
-                if "C18" in props:
-                    sim.paused += 1
-                    try:
+                sim.paused += 1
+                try:
+                    if "C18" in props:
                         check_bbox(case, domain, P, out, stats)
-                    finally:
-                        sim.paused -= 1
+                    if "C05" in props:
+                        check_own_membership(case, domain, pts, P, out, stats)
+                        if dom_probe_ok(case["dom"]):
+                            check_probe_membership(case, domain, out, stats)
+                    if "C06" in props:
+                        check_normals(case, domain, pts, P, out, stats)
+                finally:
+                    sim.paused -= 1
             except Exception as ex:
                 out.append(viol("HARNESS", "oracle", type(ex).__name__, "",
                                 msg=traceback.format_exc()[-400:]))
